@@ -44,7 +44,10 @@ UNITS.append(U("C05.u128_mul_bounded.W128S", ["C05"], I128, "h_u128_mul_bounded"
                functions=["secp256k1_u128_mul", "secp256k1_u128_accum_mul", "secp256k1_umul128"], timeout=900, replay=False))
 
 UT = "harness/C05/arith_util.c"
-fam("util_bits", UT, "h_util_bits", ["secp256k1_clz64_var", "secp256k1_ctz64_var", "secp256k1_ctz64_var_debruijn", "secp256k1_ctz32_var", "secp256k1_ctz32_var_debruijn", "secp256k1_rotr32", "secp256k1_sign_and_abs64", "secp256k1_int_cmov"], variants=("W128", "W128V"))
+UBF = ["secp256k1_clz64_var", "secp256k1_ctz64_var", "secp256k1_ctz64_var_debruijn", "secp256k1_ctz32_var", "secp256k1_ctz32_var_debruijn", "secp256k1_rotr32", "secp256k1_sign_and_abs64", "secp256k1_int_cmov"]
+fam("util_bits", UT, "h_util_bits", UBF, variants=("W128", "W128V"), unwind=70, closed_by="case split on the result; clz fallback loop fully unwound (64) with unwinding assertion")
+UNITS.append(U("C05.util_bits.builtin_clz", ["C05"], UT, "h_util_bits", defs=["HAVE_BUILTIN_CLZLL=1"], unwind=70, functions=UBF, tier="thorough", replay=False,
+               note="clz64_var through __builtin_clzll (what configure selects on gcc/clang)"))
 fam("util_endian", UT, "h_util_endian", ["secp256k1_read_be32", "secp256k1_read_be64", "secp256k1_write_be32", "secp256k1_write_be64"], variants=("W128",))
 UTL = ["secp256k1_memczero", "secp256k1_is_zero_array", "secp256k1_memcmp_var"]
 # any length: needs hooks/C05_arith_util_loops.diff in the tree (loop contracts inside the three loops)
@@ -96,3 +99,8 @@ UNITS.append(U("C05.sc_mul_512.W64", ["C05"], SM, "h_sc_mul_512", cfg="W64", ver
                tier="thorough", timeout=3600, replay=False, note="8x32: native 32x32->64 products"))
 UNITS.append(U("C05.sc_reduce_512.W64", ["C05"], SM, "h_sc_reduce_512", cfg="W64", verify=True, functions=["secp256k1_scalar_reduce_512"],
                tier="thorough", timeout=3600, replay=False))
+fam("fe_signed", FE, "h_fe_signed", ["secp256k1_fe_to_signed62", "secp256k1_fe_from_signed62", "secp256k1_scalar_to_signed62", "secp256k1_scalar_from_signed62", "secp256k1_fe_impl_get_bounds"], quick=False)
+UNITS.append(U("C05.sc_reduce_512_value", ["C05"], SM, "h_sc_reduce_512_value", functions=["secp256k1_scalar_reduce_512"],
+               tier="thorough", timeout=3600, replay=False, note="r == l mod n via three limb-wise folds; multiplications by the constant limbs of 2^256-n are real"))
+UNITS.append(U("C05.sc_mul_512_value", ["C05"], SM, "h_sc_mul_512_value", verify=True, replace=UF, functions=["secp256k1_scalar_mul_512", "secp256k1_scalar_sqr_512"],
+               tier="thorough", timeout=3600, replay=False, note="schoolbook sum over the uninterpreted 64x64 multiplier"))
